@@ -43,7 +43,9 @@ type Case struct {
 	FC     []vnet.Fault `json:"fc,omitempty"`
 	FS     []vnet.Fault `json:"fs,omitempty"`
 	Starve string       `json:"starve,omitempty"` // "", "C", "S": everything sent TO that side is dropped (total ACK starvation)
-	Forge  bool         `json:"forge,omitempty"`  // inject records under the next, not yet authorised generation
+	// Forge: while the operations run, an off-path sender keeps injecting unprotected (epoch 0) ACK records into both
+	// sides which list every plausible record number of a pending KeyUpdate (epochs 3..8, sequence numbers 0..47)
+	Forge bool `json:"forge,omitempty"`
 	// LoseNST: the first LoseNST transmissions of the server's NewSessionTicket are lost and the
 	// operation lists start at once, while that post-handshake flight is still unacknowledged
 	LoseNST int `json:"losenst,omitempty"`
@@ -188,6 +190,21 @@ func run(c Case, r *pbt.R) {
 		go runOps("S", c.OpsS)
 		done := make(chan struct{})
 		go func() { wg.Wait(); close(done) }()
+		if c.Forge {
+			r.Class("forged-plaintext-acks")
+			go func() {
+				for i := 0; ; i++ {
+					select {
+					case <-done:
+						return
+					case <-time.After(40 * time.Millisecond):
+					}
+					ack := forgedPlainACK(uint64(5000 + i)) //nolint:gosec
+					p.Net.Inject("C", "S", ack)
+					p.Net.Inject("S", "C", ack)
+				}
+			}()
+		}
 		select {
 		case <-done:
 		case <-time.After(90 * time.Minute):
@@ -450,6 +467,26 @@ func run(c Case, r *pbt.R) {
 	}
 }
 
+// forgedPlainACK builds a DTLSPlaintext record (epoch 0, the given sequence number) of content type ack
+// which acknowledges the record numbers (e, s) for e in 3..8 and s in 0..47.
+func forgedPlainACK(seq uint64) []byte {
+	var body []byte
+	for e := uint64(3); e <= 8; e++ {
+		for sq := uint64(0); sq < 48; sq++ {
+			body = binary.BigEndian.AppendUint64(body, e)
+			body = binary.BigEndian.AppendUint64(body, sq)
+		}
+	}
+	rec := []byte{26, 0xfe, 0xfd, 0, 0}
+	var s8 [8]byte
+	binary.BigEndian.PutUint64(s8[:], seq)
+	rec = append(rec, s8[2:]...)
+	rec = binary.BigEndian.AppendUint16(rec, uint16(len(body)+2)) //nolint:gosec
+	rec = binary.BigEndian.AppendUint16(rec, uint16(len(body)))   //nolint:gosec
+
+	return append(rec, body...)
+}
+
 func genOps(t *rapid.T, label string) []Op {
 	n := rapid.IntRange(0, 6).Draw(t, label+"n")
 	var ops []Op
@@ -483,11 +520,41 @@ func gen(t *rapid.T) Case {
 	if rapid.IntRange(0, 7).Draw(t, "starve") == 0 {
 		c.Starve = rapid.SampledFrom([]string{"C", "S"}).Draw(t, "starveside")
 	}
+	c.Forge = rapid.IntRange(0, 3).Draw(t, "forge") == 0
 
 	return c
 }
 
+// longEpochCases: an epoch that carried more than 2^16 records (the 16-bit wire sequence number has wrapped)
+// is then replaced by a key update whose first ACK is lost, with payloads written while the update is pending
+// (they travel under the old epoch and reach the peer after it switched) - and the mirror image, a straggler
+// of a short old epoch that arrives after the new epoch has carried more than 2^15 records.
+func longEpochCases(_ string, yield func(Case) bool) {
+	for _, side := range []string{"C", "S"} {
+		long := []Op{{Kind: "write", N: 66000}, {Kind: "update", Par: true}, {Kind: "write", N: 5}, {Kind: "idle", N: 4000}, {Kind: "write", N: 1}}
+		strag := []Op{{Kind: "write", N: 1}, {Kind: "update"}, {Kind: "write", N: 33500}, {Kind: "idle", N: 2000}}
+		a := Case{Suite: 0x1301}
+		b := Case{Suite: 0x1303, CID: 4}
+		if side == "C" {
+			a.OpsC, a.FS = long, []vnet.Fault{{Kind: vnet.Drop}}
+			b.OpsC, b.FC = strag, []vnet.Fault{{Kind: vnet.Hold, Until: 33000}}
+		} else {
+			a.OpsS, a.FC = long, []vnet.Fault{{Kind: vnet.Drop}}
+			b.OpsS, b.FS = strag, []vnet.Fault{{Kind: vnet.Hold, Until: 33000}}
+		}
+		if !yield(a) || !yield(b) {
+			return
+		}
+	}
+}
+
 func init() {
+	pbt.Register(pbt.Prop[Case]{
+		Name: "long-epoch-grid", Enum: longEpochCases, Exhaustive: true, Run: run, Crashy: true,
+		Rule: "4 fixed histories with the oracle of key-updates: 66000 payloads under one epoch, then UpdateKeys whose first ACK is lost with 5 payloads written meanwhile " +
+			"(old-epoch records with sequence numbers >= 2^16 arriving after the receiver switched), and a held old-epoch record released after 33000 records of the new epoch; both directions. " +
+			"non-trivial = the update completed; distinct = whole case",
+	})
 	pbt.Register(pbt.Prop[Case]{
 		Name: "key-updates", Quick: 1200, Thorough: 30000, Gen: gen, Run: run, Crashy: true,
 		Rule: "DTLS 1.3 session (3 suites x CID) with pre-drawn operation lists for both sides (UpdateKeys with/without peer request, Write bursts, idle, optionally in parallel goroutines) " +
